@@ -1,4 +1,5 @@
 #include <limits>
+#include <cstdlib>
 #include <cstring>
 
 #include <occa/types/bits.hpp>
@@ -150,7 +151,8 @@ namespace occa {
       // Handle the multiple other formats with normal digits
       if (decimal || float_) {
         if (float_) {
-          p = (float) occa::parseFloat(std::string(c0, c - c0));
+          // Round the decimal text once, straight to float (not text -> double -> float)
+          p = ::strtof(std::string(c0, c - c0).c_str(), NULL);
         } else {
           p = (double) occa::parseDouble(std::string(c0, c - c0));
         }
